@@ -9,11 +9,20 @@ fn hex(b: &[u8]) -> String { b.iter().map(|x| format!("{:02x}", x)).collect() }
 fn unhex(s: &str) -> Vec<u8> { (0..s.len() / 2).map(|i| u8::from_str_radix(&s[2 * i..2 * i + 2], 16).unwrap()).collect() }
 fn sample(name: &str) -> Vec<u8> { std::fs::read(Path::new(env!("CARGO_MANIFEST_DIR")).join("samples").join(name)).unwrap() }
 
-const STREAMS: [&str; 14] = ["compressed_zlib_level1.deflate", "compressed_zlib_level4.deflate", "compressed_zlib_level6.deflate", "compressed_zlib_level9.deflate",
+const STREAMS: [&str; 44] = ["compressed_zlib_level1.deflate", "compressed_zlib_level4.deflate", "compressed_zlib_level6.deflate", "compressed_zlib_level9.deflate",
     "compressed_flate2_level1.deflate", "compressed_flate2_level6.deflate", "compressed_flate2_level9.deflate", "compressed_flate2_level1_longmatch.deflate",
     "compressed_libdeflate_level1.deflate", "compressed_libdeflate_level6.deflate", "compressed_libdeflate_level9.deflate",
-    "compressed_minizoxide_level1.deflate", "compressed_zlib_level0.deflate", "compressed_zlib_level3.deflate"];
-const FILES: [&str; 1] = ["samplezip.zip"];
+    "compressed_minizoxide_level1.deflate", "compressed_zlib_level0.deflate", "compressed_zlib_level3.deflate",
+    // every other compressor level of the sample set, the zlib-ng samples (other hash algorithms) and the real-world dumps
+    "compressed_zlib_level2.deflate", "compressed_zlib_level5.deflate", "compressed_zlib_level7.deflate", "compressed_zlib_level8.deflate",
+    "compressed_flate2_level2.deflate", "compressed_flate2_level3.deflate", "compressed_flate2_level4.deflate", "compressed_flate2_level5.deflate",
+    "compressed_flate2_level7.deflate", "compressed_flate2_level8.deflate",
+    "compressed_libdeflate_level2.deflate", "compressed_libdeflate_level3.deflate", "compressed_libdeflate_level4.deflate", "compressed_libdeflate_level5.deflate",
+    "compressed_libdeflate_level7.deflate", "compressed_libdeflate_level8.deflate",
+    "compressed_zlibng_level1.deflate", "compressed_zlibng_level2.deflate", "compressed_zlibng_level3.deflate", "compressed_zlibng_level4.deflate", "zlibng.deflate",
+    "dump214.deflate", "dump5265.deflate", "dump571.deflate", "savegame.deflate", "starcontrol.deflate", "tree.paintnet.deflate", "treepng.deflate",
+    "compressed_flate2_level0.deflate", "compressed_libdeflate_level0.deflate"];
+const FILES: [&str; 3] = ["samplezip.zip", "treegdi.png", "sample1.bin.gz"];
 
 #[test]
 fn verif_search() {
